@@ -156,7 +156,7 @@ func (o *attributeSlice) Equals(other interface{}, g px.Guard) bool {
 		// attribute that was not given is represented by its default.
 		ai := o.typ.AttributesInfo()
 		positions := ai.EqualityAttributeIndex()
-		if len(positions) == 0 {
+		if positions == nil {
 			positions = make([]int, len(ai.Attributes()))
 			for i := range positions {
 				positions[i] = i
